@@ -97,15 +97,17 @@ Theorem C19_drawn_nothing_else : forall (A : Type) r (sc : list (obst A)) tb te,
     end.
 Proof. exact drawn_plain_rest. Qed.
 
-(* the parameters of the source's default tree with a window assigned at the top level satisfy the hypotheses *)
-Theorem C19_default_tree_is_plain : forall tb te r,
-  rparams_of (with_window tb te mp_default) = Some r ->
+(* the setting of the statement, assigned on the tree MPDrawParams() constructs (window at the top level; shapes
+   on, icons / extra occupancies / history off on their groups; no id filters): the renderer reads parameters
+   that satisfy the hypotheses of the two theorems above *)
+Theorem C19_plain_setting_readable : forall tb te, exists t hs hz,
+  plain_setting tb te mp_default = Some t /\
+  rparams_of t = Some (mkR (mkD tb te true false false false hs hz) tb (mkP tb te true false) tb None None).
+Proof. exact plain_setting_rparams. Qed.
+Theorem C19_plain_setting_is_plain : forall tb te t r,
+  plain_setting tb te mp_default = Some t -> rparams_of t = Some r ->
   plain r = true /\ window r tb te /\ r_lanelet_ids r = None /\ r_pp_ids r = None.
-Proof. exact default_rparams_plain. Qed.
-Theorem C19_default_tree_readable : forall tb te, exists hs hz,
-  rparams_of (with_window tb te mp_default) =
-  Some (mkR (mkD tb te true false false false hs hz) tb (mkP tb te true false) tb None None).
-Proof. exact default_rparams. Qed.
+Proof. exact plain_setting_plain. Qed.
 
 (* lanelets / planning problems: all, or exactly the selected ids *)
 Theorem C19_id_filter : forall ids sel i,
@@ -155,8 +157,8 @@ Print Assumptions C19_window_reaches_every_group.
 Print Assumptions C19_window_nonvacuous.
 Print Assumptions C19_drawn_occupancies.
 Print Assumptions C19_drawn_nothing_else.
-Print Assumptions C19_default_tree_is_plain.
-Print Assumptions C19_default_tree_readable.
+Print Assumptions C19_plain_setting_readable.
+Print Assumptions C19_plain_setting_is_plain.
 Print Assumptions C19_id_filter.
 Print Assumptions C19_phantom_with_occupancies.
 Print Assumptions C19_inverted_window_refuted.
